@@ -196,7 +196,12 @@ def run_strip(spec, rec: Recorder):
         for op in ("unprotect", "protect"):
             for api in ("sync", "async"):
                 for form in ("seed", "public"):
-                    for variant in ("evil-envelope", "same-stub", "with-pad", "level-1", "level-2", "level-4", "level-5", "type-0", "prepend-unsealed-fragment", "prepend-unsealed-fragment-no-hresult", "append-unsealed-fragment", "stripped-bind-ack", "fragmented-legit", "fragmented-evil-tail", "fragmented-evil-tail-3", "fragmented-evil-middle"):
+                    for variant in ("evil-envelope", "same-stub", "with-pad", "level-1", "level-2", "level-4", "level-5", "type-0", "prepend-unsealed-fragment", "prepend-unsealed-fragment-no-hresult", "append-unsealed-fragment", "stripped-bind-ack", "fragmented-legit", "fragmented-evil-tail", "fragmented-evil-tail-3", "fragmented-evil-middle", "challenge-flags-cleared", "mapper-names-port-135"):
+
+                        if variant == "mapper-names-port-135" and w.sec == "negotiate":
+                            # (a SPNEGO initiator that is handed empty server tokens re-emits its token: against this rogue
+                            # endpoint the handshake never ends - a server-driven loop, not something C16 decides)
+                            continue
 
                         def tamper(conn, out, info, form=form, variant=variant):
                             req = [e for e in conn.events if e["event"] == "request"][-1]["getkey"]
@@ -248,6 +253,31 @@ def run_strip(spec, rec: Recorder):
                                 return bytes(hdr) + body + bytes(trailer) + out[off + 8 :]
                             return rrpc.encode(dict(ptype=rrpc.RESPONSE, flags=FL, call_id=info["request"]["call_id"], auth=None, alloc_hint=len(stub), ctx_id=info["request"]["ctx_id"], cancel_count=0, stub=stub))
 
+                        if variant == "mapper-names-port-135":
+                            # the (unauthenticated) endpoint mapper reply names port 135 itself as the ISD_KEY endpoint, and
+                            # whoever answers there speaks ISD_KEY without a security context and hands out its own envelope
+                            from vf.ref import epm as _repm
+
+                            w.cfg.epm_towers = lambda port: [_repm.tcpip_tower(rrpc.ISD_KEY, rrpc.NDR, 135, 0)]
+                            w.cfg.rogue_isd_on_135 = True
+                        if variant == "challenge-flags-cleared":
+                            # a ROGUE server that does not hold the account's secret: it clears the sign / seal bits in the
+                            # NTLM CHALLENGE it sends (so that the client's context ends up without message protection),
+                            # waves the client's AUTHENTICATE through unverified and answers in clear with its own envelope.
+                            # A client for which the property holds either refuses to go on or still demands a sealed reply.
+
+                            def clear_flags(conn, ack, info):
+                                m = rrpc.decode(ack)
+                                tok = m["auth"]["token"] if m.get("auth") else None
+                                if tok and tok[:8] == b"NTLMSSP\x00" and tok[8:12] == b"\x02\x00\x00\x00":
+                                    fl = int.from_bytes(tok[20:24], "little") & ~(0x10 | 0x20 | 0x8000 | 0x40000000)
+                                    m["auth"]["token"] = tok[:20] + fl.to_bytes(4, "little") + tok[24:]
+                                    rec.count("ntlm_challenges_downgraded")
+                                    return rrpc.encode(m)
+                                return ack
+
+                            w.cfg.tamper_bind = clear_flags
+                            w.cfg.rogue_ignore_auth_failure = True
                         if variant == "stripped-bind-ack":
                             # two coordinated steps: the bind_ack loses its verifier (no server token), and whatever request
                             # follows is answered in clear with the attacker's envelope
@@ -268,6 +298,10 @@ def run_strip(spec, rec: Recorder):
                         finally:
                             w.cfg.tamper_bind = None
                             w.cfg.reply_fragment_cuts = None
+                            w.cfg.rogue_ignore_auth_failure = False
+                            w.cfg.rogue_isd_on_135 = False
+                            if variant == "mapper-names-port-135":
+                                w.cfg.epm_towers = None
                         ev = [e for c in w.core.transcripts[-1:] for e in c.events if e["event"] == "request"]
                         if ev and ev[-1].get("unsealed_on_auth_connection") and ev[-1].get("getkey") is not None:
                             rec.violation("request-sent-unsealed", f"{op}/{api}: after {variant} the client sent the GetKey request in clear on an authenticated connection", {"class": "strip", "op": op, "api": api, "variant": variant, "security": w.sec})
